@@ -339,6 +339,9 @@ func TestPropExact(t *testing.T) {
 		recs, cl := genDataset(rt, evid.Pick(40, 60))
 		c := exactCase{Recs: recs, Workers: rapid.SampledFrom([]int{1, 2, 3, 8}).Draw(rt, "workers")}
 		edges, mcl := modelClasses(recs)
+		if edges > 0 {
+			cl = append(cl, "exact:nontrivial")
+		}
 		evid.Eval("exact", hashRecs(recs), edges > 0, c, append(cl, mcl...)...)
 		if err := checkExact(c); err != nil {
 			evid.Fail(rt, "exact", c, err)
@@ -435,6 +438,9 @@ func TestPropWorkers(t *testing.T) {
 			cl = append(cl, "sons>=250")
 		default:
 			cl = append(cl, "sons<250")
+		}
+		if deg >= 2*c.Workers[len(c.Workers)-1] {
+			cl = append(cl, "workers:nontrivial")
 		}
 		evid.Eval("workers", evid.Hash(hashRecs(recs), dist, ratio, fmt.Sprint(c.Workers)), deg >= 2*c.Workers[len(c.Workers)-1], nil, cl...)
 		evid.Class("builds_with_several_workers", int64(c.Reps*len(c.Workers)))
